@@ -47,7 +47,10 @@ func strOverlap(r *common.Run) {
 					execs += int64(common.Overlap(-1, func() ([]func(func()), func(*common.OverlapExec)) {
 						var cur func()
 						src := &yieldSource{scriptSource: scriptSource{script: script}, cur: &cur}
-						g := randz.NewStrGenerator(set, src)
+						var g randz.StrGenerator
+						if _, _, p := common.Catch(func() { g = randz.NewStrGenerator(set, src) }); p {
+							return nil, func(*common.OverlapExec) {} // reported by the sequential family
+						}
 						var out [2]string
 						body := func(i int) func(func()) {
 							return func(y func()) {
@@ -127,7 +130,10 @@ func idOverlap(r *common.Run) {
 				var cur func()
 				rd := &yieldReader{cur: &cur}
 				srand.Reader = rd
-				g := randz.NewIdGenerator(start, randBit)
+				var g randz.IdGenerator
+				if _, _, p := common.Catch(func() { g = randz.NewIdGenerator(start, randBit) }); p {
+					return nil, func(*common.OverlapExec) {} // reported by the sequential family
+				}
 				var out [2]randz.ID
 				var before, after [2]int64
 				body := func(i int) func(func()) {
